@@ -1,5 +1,6 @@
 import SynRBLModel.Proofs.Batching
 import SynRBLModel.Proofs.Pipeline3
+import SynRBLModel.Model.Preprocess
 /-!
 # C05 — one result row per input row, in input order, for every input form
 -/
@@ -38,5 +39,30 @@ theorem C05_dataloader (n : Nat) (hn : 1 ≤ n) (xs : List InRow) :
   intro e; subst e; simp at h2
 
 example : batchesOf 2 [1, 2, 3, 4] = [[1, 2], [3, 4]] ∧ chunks 2 5 [1, 2, 3, 4] = [[1, 2], [3, 4], []] := by decide
+
+end SynRBL
+
+namespace SynRBL
+open Str
+
+/-- **C05 (raw inputs).** For every list of raw reaction strings, every batch size ≥ 1, every parser and oracle: one
+row per input, in order; the row of a valid input reports the input after atom-map removal as `input_reaction`, the
+row of a malformed input reports the raw string, is unsolved and carries an issue. -/
+theorem C05_raw_rows (parse : Str → Bool) (oracleOf : Str → Oracle) (cfg : Config) (n : Nat) (hn : 1 ≤ n)
+    (raws : List Str) :
+    (rebalanceRaw parse oracleOf cfg n raws).1.length = raws.length ∧
+    ∀ i (h : i < raws.length), ∃ r, (rebalanceRaw parse oracleOf cfg n raws).1[i]? = some r ∧
+      (if validReaction parse (Aam.remove raws[i]) then r.input = Aam.remove raws[i]
+       else r.input = raws[i] ∧ r.reaction = raws[i] ∧ r.solved = false ∧ r.issue = some invalidIssue) := by
+  unfold rebalanceRaw
+  rw [rebalance_eq cfg n hn]
+  refine ⟨by simp, ?_⟩
+  intro i h
+  refine ⟨runIn cfg (classify parse oracleOf raws[i]), by simp [h], ?_⟩
+  unfold classify
+  simp only []
+  split
+  · simp only [runIn]; exact C05_row_describes_its_input _ cfg _
+  · simp [runIn]
 
 end SynRBL
